@@ -48,6 +48,7 @@ func runC13(p *Prog, r *Report) {
 	r.Rule("D3-applied-or-error", "package.json: an update is applied or Write fails")
 	r.Rule("D4-identity", "package.json: the buffer changes only inside the update loop; it is what gets written")
 	r.Rule("D5-origin-separator", "pom.xml: origin strings are split, joined and trimmed with the '@' separator")
+	r.Rule("D6-section-bookkeeping", "pom.xml: a section is marked as handled under the origin whose patches were applied to it")
 	for _, fn := range p.FuncsIn("guidedremediation/internal/manifest/npm", "guidedremediation/internal/manifest/maven") {
 		checkBoundsA(p, r, "D2-bounds", fn, auditedC13)
 		checkAsserts(p, r, "D2-assert", fn, func(ta *ssa.TypeAssert) (bool, string) {
@@ -63,6 +64,7 @@ func runC13(p *Prog, r *Report) {
 	}
 	c13PackageJSON(p, r)
 	c13Origins(p, r)
+	c13Sections(p, r)
 }
 
 func c13PackageJSON(p *Prog, r *Report) {
@@ -415,4 +417,77 @@ func c13Origins(p *Prog, r *Report) {
 		})
 	}
 	r.Instances("D5-origin-separator", "origin split/join/suffix sites", nsites, 2)
+}
+
+
+// c13Sections: in writeProject every `updated[K] = true` is paired with the `patches[K']` lookup of
+// the same section (the lookup it dominates, before the next token is read); K and K' must be the
+// same value. Marking another origin as handled makes write() skip appending that origin's new
+// entries (or append them twice) while Write still reports success.
+func c13Sections(p *Prog, r *Report) {
+	fn := p.Func("guidedremediation/internal/manifest/maven", "writeProject")
+	if fn == nil {
+		r.Undecided("D6-section-bookkeeping", "anchor:writeProject", "-", "not found")
+		return
+	}
+	var updatedP, patchesP *ssa.Parameter
+	for _, prm := range fn.Params {
+		switch prm.Name() {
+		}
+		if m, ok := prm.Type().Underlying().(*types.Map); ok {
+			if b, ok := m.Elem().Underlying().(*types.Basic); ok && b.Kind() == types.Bool {
+				updatedP = prm
+			} else if _, ok := m.Elem().Underlying().(*types.Map); ok {
+				if em, ok := m.Elem().Underlying().(*types.Map); ok {
+					if eb, ok := em.Elem().Underlying().(*types.Basic); ok && eb.Kind() == types.Bool {
+						patchesP = prm
+					}
+				}
+			}
+		}
+	}
+	if updatedP == nil || patchesP == nil {
+		r.Undecided("D6-section-bookkeeping", "writeProject:params", p.Pos(fn.Pos()), "cannot identify the handled-sections map and the patch table among the parameters")
+		return
+	}
+	n := 0
+	forEachInstr(fn, func(b *ssa.BasicBlock, _ int, in ssa.Instruction) {
+		mu, ok := in.(*ssa.MapUpdate)
+		if !ok || mu.Map != ssa.Value(updatedP) {
+			return
+		}
+		n++
+		hdr := loopHeaderOf(b)
+		// lookups of the patch table this update dominates, inside the same token iteration
+		var keys []ssa.Value
+		forEachInstr(fn, func(b2 *ssa.BasicBlock, _ int, in2 ssa.Instruction) {
+			lk, ok := in2.(*ssa.Lookup)
+			if !ok || lk.X != ssa.Value(patchesP) || !b.Dominates(b2) {
+				return
+			}
+			if hdr != nil && loopHeaderOf(b2) != hdr && !naturalLoop(hdr)[b2] {
+				return
+			}
+			keys = append(keys, lk.Index)
+		})
+		site := fmt.Sprintf("writeProject:updated[%s]", renderValue(mu.Key, 0))
+		if len(keys) == 0 {
+			r.Fail("D6-section-bookkeeping", site, p.Pos(mu.Pos()), "a section is marked as handled but no patches are looked up for it")
+			return
+		}
+		okK := true
+		for _, k := range keys {
+			same := k == mu.Key
+			if !same {
+				a, okA := constString(k)
+				bb, okB := constString(mu.Key)
+				same = okA && okB && a == bb
+			}
+			if !same {
+				okK = false
+			}
+		}
+		r.Check(okK, "D6-section-bookkeeping", site, p.Pos(mu.Pos()), "marked under the origin whose patches are applied", "a pom.xml section is marked as handled under a different origin than the one whose patches are applied to it: write() then skips (or duplicates) the new entries of the other origin, and the update is reported as written although the file lacks it")
+	})
+	r.Instances("D6-section-bookkeeping", "sections marked as handled in writeProject", n, 3)
 }
